@@ -427,6 +427,19 @@ func (r *c11Run) famAlias(v int) {
 		s.tx(a, a, "ESDTNFTTransfer", bigGas, tok, n, be(1), same)
 		s.sysOn(s.w.shardOf(a), u.SYS, "ESDTUnPause", cat)
 	}
+	// a fungible token whose identifier is another token's id ‖ nonce, sent onto the account that holds that NFT (and the reverse)
+	for _, cat := range [][]byte{[]byte("ABC\x01"), []byte("ABC-123456\x01"), []byte("AB\x02")} {
+		for _, b := range [][]byte{same, cross} {
+			s.sys(b, "ESDTTransfer", cat, be(100))
+			s.deliverNew(s.tx(b, a, "ESDTTransfer", bigGas, cat, be(1)))
+			s.deliverNew(s.tx(b, b, "MultiESDTNFTTransfer", bigGas, a, be(1), cat, nil, be(1))) // (the nil-metadata dereference of F11, fixed)
+			s.deliverNew(s.tx(b, b, "MultiESDTNFTTransfer", bigGas, a, be(2), u.Fung[0], nil, be(1), cat, []byte{0}, be(2)))
+			s.deliverNew(s.tx(b, b, "ESDTNFTTransfer", bigGas, cat, nil, be(1), a))
+			// the NFT onto the holder of the fungible alias
+			s.deliverNew(s.tx(a, a, "ESDTNFTTransfer", bigGas, cat[:len(cat)-1], cat[len(cat)-1:], be(1), b))
+			s.deliverNew(s.tx(a, a, "MultiESDTNFTTransfer", bigGas, b, be(1), cat[:len(cat)-1], cat[len(cat)-1:], be(1)))
+		}
+	}
 	// wipe an aliased entry, then use it
 	s.sys(a, "ESDTFreeze", []byte("ABC\x01"))
 	s.sys(a, "ESDTWipe", []byte("ABC\x01"))
